@@ -50,6 +50,26 @@ class Folder:
                 else:
                     d[self.ev(k, local)] = self.ev(v, local)
             return d
+        if isinstance(e, ast.BinOp) and isinstance(e.op, (ast.BitOr, ast.BitAnd, ast.Sub, ast.BitXor, ast.Add)):
+            l, r = self.ev(e.left, local), self.ev(e.right, local)
+            try:
+                if isinstance(e.op, ast.BitOr):
+                    return l | r
+                if isinstance(e.op, ast.BitAnd):
+                    return l & r
+                if isinstance(e.op, ast.Sub):
+                    return l - r
+                if isinstance(e.op, ast.BitXor):
+                    return l ^ r
+                return l + r
+            except TypeError:
+                self.err(e, "operands")
+        if isinstance(e, ast.GeneratorExp):
+            e = ast.ListComp(elt=e.elt, generators=e.generators)
+        if isinstance(e, ast.Call) and isinstance(e.func, ast.Attribute) and e.func.attr in ("upper", "lower", "title", "capitalize") and not e.args:
+            o = self.ev(e.func.value, local)
+            if isinstance(o, str):
+                return getattr(o, e.func.attr)()
         if isinstance(e, (ast.DictComp, ast.SetComp, ast.ListComp)):
             if len(e.generators) != 1 or e.generators[0].is_async:
                 self.err(e, "comprehension shape")
